@@ -2,6 +2,7 @@ package props
 
 import (
 	"fmt"
+	"os/exec"
 	"reflect"
 	"sort"
 	"strings"
@@ -324,7 +325,96 @@ func init() {
 		Phases: []Phase{
 			{Name: "28 special names, full case-variant battery", Exhaustive: true, N: Fixed(len(c19SpecialNames), len(c19SpecialNames)), Run: c19Specials},
 			{Name: "registration histories with the battery after each step", N: Fixed(200, 20000), Run: c19History},
+			{Name: "the application overwrites built-in names (each one, and all six): plain texttable stays the text renderer's default, the names follow the registry (one child process each)", Exhaustive: true, N: Fixed(7, 7), Run: c19Overwrite},
 			{Name: "a program importing only tabular and tabular/auto: listing complete, every listed style works in every spelling (3 tables, one child process each)", Exhaustive: true, N: Fixed(3, 3), Run: c19MinAuto},
 		},
 	})
+}
+
+// ---------------------------------------------------------------------------
+// The application overwrites built-in decoration names (the registry documents that it may): named styles follow,
+// but plain "texttable" is the text renderer's default decoration, which is whatever texttable.New uses - not a
+// registry entry.  Runs in a child process of its own (vcheck -aux c19overwrite <which>) because overwriting a
+// built-in changes what that name means for the rest of the process.
+
+func init() { auxModes["c19overwrite"] = c19OverwriteChild }
+
+func c19OverwriteChild(args []string) int {
+	if len(args) < 1 {
+		return 3
+	}
+	which := args[0] // one built-in name, or "all"
+	bad := func(f string, a ...interface{}) int { fmt.Printf("BAD: "+f+"\n", a...); return 0 }
+	build := func(t tabular.Table) {
+		t.AddHeaders("k", "v")
+		t.AddRowItems("a", 1)
+		t.AddSeparator()
+		t.AddRowItems("two\nlines", "x")
+	}
+	mine := decoration.Decoration{Horizontal: "=", Vertical: "!", CrossPiece: "#"}
+	mine.Populate()
+	for _, n := range c19Builtin {
+		if which == "all" || which == n {
+			decoration.RegisterDecorationName(n, mine)
+		}
+	}
+	t0 := texttable.New()
+	build(t0)
+	def, err := t0.Render()
+	if err != nil || def == "" {
+		return bad("after overwriting %s, texttable.New() does not render: %q %v", which, def, err)
+	}
+	for _, style := range []string{"texttable", "TextTable", "TEXTTABLE", "texttable"} {
+		t1 := auto.New(style)
+		build(t1)
+		got, err := t1.Render()
+		if err != nil || got != def {
+			return bad("after the application overwrote the built-in name(s) %s, auto.New(%q) renders %q (error %v); the text renderer's default decoration (texttable.New) gives %q", which, style, got, err, def)
+		}
+		t2 := tabular.New()
+		build(t2)
+		if got, err := auto.Render(t2, style); err != nil || got != def {
+			return bad("after the application overwrote the built-in name(s) %s, auto.Render(t, %q) gives %q (error %v); texttable.New gives %q", which, style, got, err, def)
+		}
+		if got, err := texttable.Render(t2); err != nil || got != def {
+			return bad("after the application overwrote the built-in name(s) %s, texttable.Render(t) gives %q (error %v); texttable.New gives %q", which, got, err, def)
+		}
+	}
+	// the names themselves follow the registry
+	for _, n := range c19Builtin {
+		if which != "all" && which != n {
+			continue
+		}
+		t3 := tabular.New()
+		build(t3)
+		want, _ := texttable.Wrap(t3).SetDecoration(mine).Render()
+		for _, style := range []string{n, "texttable." + n} {
+			if got, err := auto.Render(t3, style); err != nil || got != want {
+				return bad("after RegisterDecorationName(%q, X), auto.Render(t, %q) gives %q (error %v), rendering with X gives %q", n, style, got, err, want)
+			}
+		}
+	}
+	if ls := auto.ListStyles(); !sort.StringsAreSorted(ls) {
+		return bad("after overwriting %s the style listing is not sorted: %q", which, ls)
+	}
+	fmt.Println("OK")
+	return 0
+}
+
+func c19Overwrite(c *Ctx, i int, r *gen.R) {
+	which := append([]string{"all"}, c19Builtin...)[i%(len(c19Builtin)+1)]
+	desc := map[string]interface{}{"built_in_names_overwritten_by_the_application": which}
+	c.Case = desc
+	out, err := exec.Command(c.Exe, "-aux", "c19overwrite", which).CombinedOutput()
+	c.Rec.Eval(gen.Hash64("overwrite", which), true)
+	c.Rec.Count("overwrite_probes_in_child_processes", 1)
+	s := strings.TrimSpace(string(out))
+	switch {
+	case err != nil:
+		c.Rec.Violate("overwritten-built-in:child-died", fmt.Sprintf("the child process overwriting %s died: %v; output %q", which, err, s), desc)
+	case strings.HasPrefix(s, "BAD:"):
+		c.Rec.Violate("overwritten-built-in:plain-texttable-or-named-style", s, desc)
+	case !strings.HasSuffix(s, "OK"):
+		c.Rec.Inconclusive("overwrite child printed neither OK nor BAD: " + s)
+	}
 }
